@@ -53,14 +53,16 @@ type Program struct {
 	byObj   map[*types.Func]*FuncInfo
 	parents map[ast.Node]ast.Node
 
-	postconds      map[*types.Func][]lenPostcond
-	postCache      map[postKey]*postInfo
-	postBusy       map[*FuncInfo]bool
-	resLenCache    map[*FuncInfo][]resLen
-	resConstsCache map[*FuncInfo][]int64
-	resRangeCache  map[*FuncInfo]*resRange
-	nonNilVars     map[*types.Var]bool
-	postcondBusy   bool
+	postconds        map[*types.Func][]lenPostcond
+	postCache        map[postKey]*postInfo
+	postBusy         map[*FuncInfo]bool
+	resLenCache      map[*FuncInfo][]resLen
+	resConstsCache   map[*FuncInfo][]int64
+	fieldWritesCache map[*FuncInfo]map[string]bool
+	nodeWritesCache  map[ast.Node][]nodeWrite
+	resRangeCache    map[*FuncInfo]*resRange
+	nonNilVars       map[*types.Var]bool
+	postcondBusy     bool
 
 	ssaProg *ssa.Program
 	ssaPkgs map[string]*ssa.Package
